@@ -333,7 +333,8 @@ class Ctx:
                 line = f"VIOLATION property={self.pid} replay={replay} no-failing-input-found"
         for k, v in sorted(self.known_hits.items()):
             print(f"KNOWN-FINDING: property={self.pid} {k}: {v['finding']['what']} ({v['n']} cases, e.g. {json.dumps(v['example'], default=str)[:200]})")
-        self.write_evidence(names, discharged, problems, bool(line))
+        if not self.no_lean:     # development runs without the Lean side never produce evidence
+            self.write_evidence(names, discharged, problems, bool(line))
         if line:
             for v in self.violations[:3]:
                 print("DETAIL violation: " + v["what"] + " :: " + json.dumps(v["case"], default=str)[:300])
